@@ -4,7 +4,7 @@
 import json, os, shutil, subprocess, sys, time
 prop, x = sys.argv[1:3]
 tests = sys.argv[3:]
-wt = "/tmp/wt/%s" % prop
+wt = "%s/%s" % (os.environ.get("WT_BASE", "/tmp/wt"), prop)
 src = "%s/_mut/%s" % (wt, x)
 env = dict(os.environ, OMP_NUM_THREADS="1", MKL_NUM_THREADS="1", PYTHONPATH=wt + "/src")
 def sh(cmd, **kw):
